@@ -38,6 +38,8 @@ namespace bloch::compiler {
                 tokens.push_back(scanToken());
             }
         }
+        m_tokenLine = m_line;
+        m_tokenColumn = m_column;
         tokens.push_back(makeToken(TokenType::Eof, ""));
         return tokens;
     }
@@ -52,7 +54,13 @@ namespace bloch::compiler {
 
     char Lexer::advance() noexcept {
         char c = m_source[m_position++];
-        m_column++;
+        if (c == '\n') {
+            // Every consumed newline moves to the next line, also inside strings and chars.
+            m_line++;
+            m_column = 1;
+        } else {
+            m_column++;
+        }
         return c;
     }
 
@@ -70,12 +78,6 @@ namespace bloch::compiler {
         while (m_position < m_source.size()) {
             char c = peek();
             if (std::isspace(static_cast<unsigned char>(c))) {
-                if (c == '\n') {
-                    (void)advance();
-                    m_line++;
-                    m_column = 1;
-                    continue;
-                }
                 (void)advance();
             } else if (c == '/' && peekNext() == '/') {
                 (void)advance();
@@ -99,11 +101,13 @@ namespace bloch::compiler {
     }
 
     Token Lexer::makeToken(TokenType type, const std::string& value) {
-        // Column is adjusted so error spans point to token start.
-        return Token{type, value, m_line, m_column - static_cast<int>(value.length())};
+        // Tokens are located at their first character, wherever they end.
+        return Token{type, value, m_tokenLine, m_tokenColumn};
     }
 
     Token Lexer::scanToken() {
+        m_tokenLine = m_line;
+        m_tokenColumn = m_column;
         char c = advance();
 
         // Fast paths for common leading characters
@@ -308,8 +312,6 @@ namespace bloch::compiler {
         // Strings are double-quoted and may span lines; we do not process escapes yet.
         size_t start = m_position;
         while (m_position < m_source.size() && peek() != '"') {
-            if (peek() == '\n')
-                m_line++;
             (void)advance();
         }
 
